@@ -24,6 +24,30 @@ CHECKS = {
          "Every cycle after a HALT is checked: no architectural change while idle, 6-cycle dispatch with the right return address when IME is set, resumption without dispatch or IF change when IME is clear, and the double execution of the following byte when a request was already pending; plus generated programs and the blargg/mooneye halt ROMs.",
          "IME=0 wake-up latency of 0 or 1 cycle accepted (not stated); CB prefix after a bugged HALT and EI;HALT not judged.",
          "DESIGN.md §4 C05"),
+ "C06": ("reference-model monitor of Mapper.Read/Write histories: exhaustive address x value single writes with read-back of address and mirror, random write/read/tick histories, paired runs for LY",
+         "All 2^24 (address, value) single writes are executed with the LCD off and read back against a reference memory map (plain regions, echo both ways, FEA0-FEFF, unmapped I/O, per-register masks, DMA register), with periodic whole-space sweeps for cross-effects; random histories mix writes, reads and elapsed cycles with the LCD on and off; LY is shown independent of the written value by paired runs.",
+         "ROM-only cartridge; JOYP/serial/sound registers judged by C22/C23/C18; a location is judged only after the history wrote it.",
+         "DESIGN.md §4 C06"),
+ "C07": ("frame-condition monitor: full 64 KiB read image before/after every single Mapper.Write compared with the documented effect set, from randomised machine states",
+         "For about 2.5e5 (quick) single writes from states produced by generated programs, earlier writes and elapsed cycles on seven cartridge types, every readable location that changes must belong to the documented effect set of the written address.",
+         "Effect sets as tabulated in DESIGN.md; OAM observed through a side-effect-free hook so the harness cannot arm the OAM bug.",
+         "DESIGN.md §4 C07"),
+ "C08": ("reference-model monitor with page signatures: exhaustive control-register writes per cartridge type and ROM size, random write sequences, both ROM windows identified after every write",
+         "For every supported cartridge type and every ROM size its controller addresses, every value is written to representative addresses of every control region (from reset and from scrambled states), all MBC1 BANK1 x BANK2 x MODE triples are set, and random sequences are run; after each write the pages visible at 0000-3FFF and 4000-7FFF are identified by signature and compared with a reference controller; finally all pages are re-read.",
+         "Reference controllers follow the statement's register semantics; sizes beyond a controller's range are only crash-tested (C11).",
+         "DESIGN.md §4 C08"),
+ "C09": ("reference-model monitor over random enable/bank/read/write/dump histories per cartridge type and RAM size",
+         "Random histories of enable, disable, bank select (including out-of-range), mode, data write, read and dump on all 17 supported cartridge types x RAM size codes {0,2,3,4,5}; every read and every dump is compared with a reference RAM model (gate, modulo banking, persistence, MBC2 nibbles, ROM-only FF).",
+         "Only cells the history wrote are compared; clock registers are C10's business.",
+         "DESIGN.md §4 C09"),
+ "C10": ("reference-model monitor: complete one-second-step enumeration of all clock states through a hook, guest-visible latch/read/write/halt histories with elapsed machine cycles, exact 2^20-cycle time base",
+         "All 1.3e8 (s, m, h, day, carry) states take one rollover step on the real clock and are compared; carry chains with garbage in unused bits, random guest-visible histories and the exact second length are checked through Mapper reads/writes only.",
+         "Out-of-range counter values wrap at their bit width without carrying; latch pairs are exactly 00 then 01.",
+         "DESIGN.md §4 C10"),
+ "C11": ("crash monitor: recovered emulator panics per journaled case, worker-process deaths, and the deliberate stop observed in dedicated child processes; hostile images, exhaustive control writes, random histories and programs",
+         "Every supported cartridge type x ROM/RAM size code x every value to 24 control addresses with all windows read after each, DMA from every page, all 256x256 header pairs on differently sized images, odd-length images, random write/read/step histories and random-byte/grammar programs run in journaling worker processes; any panic or death after successful construction is a violation, and each of the 11 undefined opcodes is shown to stop the process deliberately.",
+         "Construction = memory.New + cpu.New as gameboy.New performs them; undefined opcodes are never executed in-process (peek guard).",
+         "DESIGN.md §4 C11"),
  "C22": ("reference-model monitor over the complete reachable controller state space (BFS), real Controller driven through Mapper FF00",
          "Every transition of the reachable joypad state space (576 states x 272 events) is executed on the real controller and JOYP compared with a 10-line reference under all four select values; exhaustive for the finite space, so the residual risk is the reference itself.",
          "Trusts the reference joypad (held sets, active-low, AND of selected groups) as the reading of the statement.",
